@@ -51,6 +51,40 @@ def run(ctx):
         ctx.fail("C18.R1", "ionice:level-range", f.file, f.node.lineno, f.qual,
                  "an I/O priority level outside 0-7 is not rejected (ValueError) before "
                  "the native call")
+    # the rejection itself must work for the plain integers the API documents
+    # (ionice(3, 1) as well as ionice(IOPRIO_CLASS_IDLE, 1)): building the message may
+    # format a parameter, not read attributes an int does not have
+    params_ = {a_.arg for a_ in f.node.args.args if a_.arg != "self"}
+    bad_attr = None
+    def feeders(r_):
+        # the raise expression and the assignments of its block that build what it uses
+        used = {a_.id for a_ in ast.walk(r_.exc) if isinstance(a_, ast.Name)}
+        out_ = [r_.exc]
+        for blk in ast.walk(f.node):
+            for fld in ("body", "orelse", "finalbody"):
+                sub = getattr(blk, fld, None)
+                if isinstance(sub, list) and r_ in sub:
+                    for st_ in sub[:sub.index(r_)]:
+                        if isinstance(st_, (ast.Assign, ast.AugAssign)) and any(
+                                isinstance(t_, ast.Name) and t_.id in used
+                                for t_ in (st_.targets if isinstance(st_, ast.Assign) else [st_.target])):
+                            out_.append(st_.value)
+        return out_
+    for r_ in [x for x in ast.walk(f.node) if isinstance(x, ast.Raise) and x.exc is not None]:
+        for e_ in feeders(r_):
+            for at_ in [x for x in ast.walk(e_) if isinstance(x, ast.Attribute)
+                        and isinstance(x.value, ast.Name) and x.value.id in params_]:
+                if at_.attr not in ("real", "imag", "numerator", "denominator", "bit_length",
+                                    "__class__", "to_bytes", "conjugate"):
+                    bad_attr = (r_, at_)
+    if bad_attr:
+        ctx.fail("C18.R1", "ionice:error-for-plain-int", f.file, bad_attr[0].lineno, f.qual,
+                 f"the error path evaluates `{norm_stmt(bad_attr[1])}`: for a class or level given "
+                 f"as a plain int (ionice(3, 1)) that raises AttributeError instead of the "
+                 f"documented ValueError")
+    else:
+        ctx.ok("C18.R1", "ionice:error-for-plain-int", nontrivial=False,
+               sample="messages only format their parameters")
     if idle:
         ctx.ok("C18.R1", "ionice:level-for-idle-none", sample="value and ioclass in {IDLE, NONE} "
                "-> ValueError first")
